@@ -237,15 +237,18 @@ Proof.
   - exists 92, [c]. split; [reflexivity|split; [lia|reflexivity]].
 Qed.
 
-(* from the second character on, lex_string is lx_scan_str from State::StringLiteral, provided the first
-   character is neither a quote nor (the quirk) a line terminator *)
-Lemma lex_string_scan c r1 : c <> 34 -> lx_is_line_term c = false ->
+(* after the opening quote, lex_string is lx_scan_str from State::StringLiteral unless the next
+   character is a quote *)
+Lemma lex_string_scan c r1 : c <> 34 ->
   lex_string (c :: r1) =
   let '(d, rest, e) := lx_scan_str LxSStr (c :: r1) in (if e then LxErr else LxTok TkStringValue, 34 :: d, rest).
 Proof.
-  intros H1 H2. unfold lex_string. replace (c =? 34) with false by lia. cbn [lx_scan_str].
-  replace (c =? 34) with false by lia. rewrite H2.
-  destruct (c =? 92); destruct (lx_scan_str _ r1) as [[d rest] e]; reflexivity.
+  intros H1. unfold lex_string. replace (c =? 34) with false by lia. cbn [lx_scan_str].
+  replace (c =? 34) with false by lia.
+  destruct (lx_is_line_term c) eqn:H2.
+  - replace (c =? 92) with false by (unfold lx_is_line_term in H2; lia).
+    destruct (lx_scan_str _ r1) as [[d rest] e]; reflexivity.
+  - destruct (c =? 92); destruct (lx_scan_str _ r1) as [[d rest] e]; reflexivity.
 Qed.
 
 Lemma quoted_head d tail : QuotedString SC d -> d <> [34; 34] ->
